@@ -202,8 +202,10 @@ def addState (env : Env) (s : State E) : State E :=
 def remState (env : Env) (s : State E) (g : Bool) : State E :=
   { s with blocked := false, gone := g, now := s.now + latS env, pending := !g, writes := s.writes + cp env + 1 }
 
-/-- RANKING. Every turn of the loop that consumes an event strictly decreases the bound. -/
-theorem step_decreases (env : Env) (wf : WF env) (hfin : AllFinal env) (s : State E)
+/-- RANKING. Every turn of the loop that consumes an event and whose pass asks for no retry strictly
+    decreases the bound. -/
+theorem step_decreases (env : Env) (wf : WF env) (s : State E)
+    (hfin : handlesNow env s = true → PassFinal env s)
     (hu : UniformOn env.owned s.P) (hp : s.pending = true) :
     bound env (loopStep env s) < bound env s := by
   by_cases hg : s.gone = true
@@ -324,7 +326,9 @@ theorem step_decreases (env : Env) (wf : WF env) (hfin : AllFinal env) (s : Stat
         unfold pass
         simp [hmk, hbl, hd]
       rw [this] at hrel'; cases hrel'
-  have hdec := handle_decreases env wf hfin s hu hp hpm hcm
+  have hnow : handlesNow env s = true := by
+    unfold handlesNow; simp [hp, hg', hadd', hrem', hrun, hrel']
+  have hdec := handle_decreases env wf s (hfin hnow) hu hp hpm hcm
   have hadjN : adjusting env (handleTurn env s) = false := by
     rw [adjusting_eq]
     have hbk : (handleTurn env s).blocked = s.blocked ∧ (handleTurn env s).marked = s.marked := by
